@@ -19,85 +19,85 @@ From Coq Require Import Decimal DecimalN DecimalZ.
    group --, any other float64 is [VFlt] of its shortest decimal rendering
    (strconv.FormatFloat 'g' -1), which the model receives as text: float printing is
    modelled, not verified. *)
-Inductive value : Type :=
-  | VNull
-  | VStr (s : bytes)
-  | VInt (z : Z)        (* integral number of any Go numeric type *)
-  | VFlt (text : bytes) (* non-integral (or out-of-range) float64, as rendered *)
-  | VBool (b : bool).
+Inductive kvalue : Type :=
+  | KNull
+  | KStr (s : bytes)
+  | KInt (z : Z)        (* integral number of any Go numeric type *)
+  | KFlt (text : bytes) (* non-integral (or out-of-range) float64, as rendered *)
+  | KBool (b : bool).
 
-Definition value_eqb (a b : value) : bool :=
+Definition kvalue_eqb (a b : kvalue) : bool :=
   match a, b with
-  | VNull, VNull => true
-  | VStr x, VStr y => bytes_eqb x y
-  | VInt x, VInt y => Z.eqb x y
-  | VFlt x, VFlt y => bytes_eqb x y
-  | VBool x, VBool y => Bool.eqb x y
+  | KNull, KNull => true
+  | KStr x, KStr y => bytes_eqb x y
+  | KInt x, KInt y => Z.eqb x y
+  | KFlt x, KFlt y => bytes_eqb x y
+  | KBool x, KBool y => Bool.eqb x y
   | _, _ => false
   end.
 
-Fixpoint tuple_eqb (a b : list value) : bool :=
+Fixpoint ktuple_eqb (a b : list kvalue) : bool :=
   match a, b with
   | [], [] => true
-  | x :: a', y :: b' => value_eqb x y && tuple_eqb a' b'
+  | x :: a', y :: b' => kvalue_eqb x y && ktuple_eqb a' b'
   | _, _ => false
   end.
 
 (* ---- decimal printing (strconv.Itoa / FormatInt) -------------------------------------- *)
-Fixpoint uint_bytes (d : Decimal.uint) : bytes :=
+Fixpoint k_uint_bytes (d : Decimal.uint) : bytes :=
   match d with
   | Nil => []
-  | D0 d => 48 :: uint_bytes d | D1 d => 49 :: uint_bytes d | D2 d => 50 :: uint_bytes d
-  | D3 d => 51 :: uint_bytes d | D4 d => 52 :: uint_bytes d | D5 d => 53 :: uint_bytes d
-  | D6 d => 54 :: uint_bytes d | D7 d => 55 :: uint_bytes d | D8 d => 56 :: uint_bytes d
-  | D9 d => 57 :: uint_bytes d
+  | D0 d => 48 :: k_uint_bytes d | D1 d => 49 :: k_uint_bytes d | D2 d => 50 :: k_uint_bytes d
+  | D3 d => 51 :: k_uint_bytes d | D4 d => 52 :: k_uint_bytes d | D5 d => 53 :: k_uint_bytes d
+  | D6 d => 54 :: k_uint_bytes d | D7 d => 55 :: k_uint_bytes d | D8 d => 56 :: k_uint_bytes d
+  | D9 d => 57 :: k_uint_bytes d
   end%N.
 
-Definition dec_N (n : N) : bytes := uint_bytes (N.to_uint n).
-Definition dec_Z (z : Z) : bytes :=
+Definition k_dec_N (n : N) : bytes := k_uint_bytes (N.to_uint n).
+Definition k_dec_Z (z : Z) : bytes :=
   match Z.to_int z with
-  | Pos d => uint_bytes d
-  | Neg d => 45%N :: uint_bytes d      (* '-' *)
+  | Pos d => k_uint_bytes d
+  | Neg d => 45%N :: k_uint_bytes d      (* '-' *)
   end.
 
 (* ---- utils/cast/groupkey.go ------------------------------------------------------------ *)
-Definition colon : byte := 58%N.   (* ':' *)
-Definition bar   : byte := 124%N.  (* '|' *)
+Definition k_colon : byte := 58%N.   (* ':' *)
+Definition k_bar   : byte := 124%N.  (* '|' *)
 
 (* groupTypeKey / groupFloatKey: "<kind>|<value text>" *)
-Definition type_key (v : value) : bytes :=
+Definition k_type_key (v : kvalue) : bytes :=
   match v with
-  | VNull      => [110; 105; 108; 124]%N                                   (* "nil|"     *)
-  | VStr s     => [115; 116; 114; 105; 110; 103; 124]%N ++ s               (* "string|"  *)
-  | VInt z     => [105; 110; 116; 124]%N ++ dec_Z z                        (* "int|"     *)
-  | VFlt t     => [102; 108; 111; 97; 116; 124]%N ++ t                     (* "float|"   *)
-  | VBool true  => [98; 111; 111; 108; 124; 116; 114; 117; 101]%N          (* "bool|true"  *)
-  | VBool false => [98; 111; 111; 108; 124; 102; 97; 108; 115; 101]%N      (* "bool|false" *)
+  | KNull      => [110; 105; 108; 124]%N                                   (* "nil|"     *)
+  | KStr s     => [115; 116; 114; 105; 110; 103; 124]%N ++ s               (* "string|"  *)
+  | KInt z     => [105; 110; 116; 124]%N ++ k_dec_Z z                        (* "int|"     *)
+  | KFlt t     => [102; 108; 111; 97; 116; 124]%N ++ t                     (* "float|"   *)
+  | KBool true  => [98; 111; 111; 108; 124; 116; 114; 117; 101]%N          (* "bool|true"  *)
+  | KBool false => [98; 111; 111; 108; 124; 102; 97; 108; 115; 101]%N      (* "bool|false" *)
   end.
 
 (* GroupKeyPart: strconv.Itoa(len(tk)) + ":" + tk + "|" *)
-Definition key_part (v : value) : bytes :=
-  let tk := type_key v in
-  dec_N (N.of_nat (length tk)) ++ colon :: tk ++ [bar].
+Definition k_key_part (v : kvalue) : bytes :=
+  let tk := k_type_key v in
+  k_dec_N (N.of_nat (length tk)) ++ k_colon :: tk ++ [k_bar].
 
 (* the composite key: plain concatenation of the segments *)
-Definition enc_tuple (vs : list value) : bytes := concat (map key_part vs).
+Definition enc_tuple (vs : list kvalue) : bytes := concat (map k_key_part vs).
 
 (* ---- rows --------------------------------------------------------------------------------
    A row is its id and the values of the grouping columns in GROUP BY order; [None] is a
    field that is missing from the map. All four sites treat a missing field like nil. *)
-Record row : Type := mkRow { rid : Z; rvals : list (option value) }.
+Record krow : Type := mkKRow { krid : Z; kvals : list (option kvalue) }.
 
-Definition norm (o : option value) : value := match o with Some v => v | None => VNull end.
-Definition tuple_of (r : row) : list value := map norm (rvals r).
+Definition knorm (o : option kvalue) : kvalue := match o with Some v => v | None => KNull end.
+Definition ktuple_of (r : krow) : list kvalue := map knorm (kvals r).
 
 (* per-site keys *)
-Definition agg_key (r : row) : bytes := enc_tuple (tuple_of r).
+Definition agg_key (r : krow) : bytes := enc_tuple (ktuple_of r).
 Definition s_global : bytes := [95; 95; 103; 108; 111; 98; 97; 108; 95; 95]%N.  (* "__global__" *)
 Definition s_default : bytes := [100; 101; 102; 97; 117; 108; 116]%N.            (* "default" *)
-Definition tuple_key (nokeys : bytes) (t : list value) : bytes :=
+Definition tuple_key (nokeys : bytes) (t : list kvalue) : bytes :=
   match t with [] => nokeys | _ => enc_tuple t end.
-Definition win_key (nokeys : bytes) (r : row) : bytes := tuple_key nokeys (tuple_of r).
+Definition win_key (nokeys : bytes) (r : krow) : bytes := tuple_key nokeys (ktuple_of r).
 Definition cnt_key := win_key s_global.   (* counting_window.go getKey *)
 Definition glb_key := win_key s_global.   (* global_window.go getKeyAndValues *)
 Definition ses_key := win_key s_default.  (* session_window.go extractSessionCompositeKey *)
@@ -108,51 +108,51 @@ Definition ses_key := win_key s_default.  (* session_window.go extractSessionCom
    The rows stand for the accumulators: count( * ), collect(id), first/last_value are functions
    of the sequence of rows fed to the group. GetResults ranges over the map, i.e. reports the
    entries in an unspecified order; every statement about [group] is order-independent. *)
-Definition gstate := list (bytes * (list value * list row)).
+Definition kg_state := list (bytes * (list kvalue * list krow)).
 
-Fixpoint g_add (st : gstate) (k : bytes) (t : list value) (r : row) : gstate :=
+Fixpoint kg_add (st : kg_state) (k : bytes) (t : list kvalue) (r : krow) : kg_state :=
   match st with
   | [] => [(k, (t, [r]))]
   | (k', (t', rs)) :: st' =>
       if bytes_eqb k k' then (k', (t', rs ++ [r])) :: st'
-      else (k', (t', rs)) :: g_add st' k t r
+      else (k', (t', rs)) :: kg_add st' k t r
   end.
 
-Definition g_step (key : row -> bytes) (st : gstate) (r : row) : gstate :=
-  g_add st (key r) (tuple_of r) r.
+Definition kg_step (key : krow -> bytes) (st : kg_state) (r : krow) : kg_state :=
+  kg_add st (key r) (ktuple_of r) r.
 
-Definition group_by (key : row -> bytes) (rows : list row) : list (list value * list row) :=
-  map snd (fold_left (g_step key) rows []).
+Definition kgroup_by (key : krow -> bytes) (rows : list krow) : list (list kvalue * list krow) :=
+  map snd (fold_left (kg_step key) rows []).
 
-Definition group : list row -> list (list value * list row) := group_by agg_key.
+Definition kgroup : list krow -> list (list kvalue * list krow) := kgroup_by agg_key.
 
 (* projectGroupColumns / GetResults: the tuple is reported under the output names *)
-Definition report (names : list bytes) (t : list value) : list (bytes * value) := combine names t.
-Fixpoint lookup (n : bytes) (r : list (bytes * value)) : option value :=
+Definition kreport (names : list bytes) (t : list kvalue) : list (bytes * kvalue) := combine names t.
+Fixpoint klookup (n : bytes) (r : list (bytes * kvalue)) : option kvalue :=
   match r with
   | [] => None
-  | (k, v) :: r' => if bytes_eqb n k then Some v else lookup n r'
+  | (k, v) :: r' => if bytes_eqb n k then Some v else klookup n r'
   end.
 
 (* ---- the encoders before the repair (history) ------------------------------------------
    text of a value: the string itself, %v / cast.ToString for numbers *)
-Definition old_text (null : bytes) (v : value) : bytes :=
+Definition k_old_text (null : bytes) (v : kvalue) : bytes :=
   match v with
-  | VNull => null
-  | VStr s => s
-  | VInt z => dec_Z z
-  | VFlt t => t
-  | VBool true => [116; 114; 117; 101]%N
-  | VBool false => [102; 97; 108; 115; 101]%N
+  | KNull => null
+  | KStr s => s
+  | KInt z => k_dec_Z z
+  | KFlt t => t
+  | KBool true => [116; 114; 117; 101]%N
+  | KBool false => [102; 97; 108; 115; 101]%N
   end.
 (* aggregator: value ++ "\x1f" per column, "\x00NULL" for NULL/missing *)
-Definition enc_old_agg (vs : list value) : bytes :=
-  concat (map (fun v => old_text [0; 78; 85; 76; 76]%N v ++ [31%N]) vs).
+Definition enc_old_agg (vs : list kvalue) : bytes :=
+  concat (map (fun v => k_old_text [0; 78; 85; 76; 76]%N v ++ [31%N]) vs).
 (* windows: strings.Join(parts, "|"), NULL/missing = "" *)
-Fixpoint join_bar (ps : list bytes) : bytes :=
+Fixpoint k_join_bar (ps : list bytes) : bytes :=
   match ps with
   | [] => []
   | [p] => p
-  | p :: ps' => p ++ bar :: join_bar ps'
+  | p :: ps' => p ++ k_bar :: k_join_bar ps'
   end.
-Definition enc_old_win (vs : list value) : bytes := join_bar (map (old_text []) vs).
+Definition enc_old_win (vs : list kvalue) : bytes := k_join_bar (map (k_old_text []) vs).
